@@ -598,6 +598,9 @@ def conformWith (envB filesB devsB input traceB : Bytes)
             mtimes := indexed.map fun e => (e.2, mtimes.getD e.2 0),
             nextFid := files.length, handles := [.other, .other, .other], devs := devs, trace := [] }
           let orc : Model.EvalOracles := { rx := rxFFI, strptime := strptimeEnv, zoneName := zoneEnv env.now }
+          -- the ghost allowance of the `readdir` loops: the length of the observed trace always suffices
+          -- (`C04_fuel_suffices_conform`), so a `done` answer is never a walk truncated by the model's fuel
+          let env : Model.PEnv := { env with extraFuel := trace.length }
           match mk env (confok == "1") orc files with
           | none => "BADSCENARIO"
           | some (prog, discards) =>
